@@ -10,7 +10,7 @@ from . import common
 
 ID = "C11"
 LEVEL = "exploration"
-BUDGET = {"quick": 720, "thorough": 11000}
+BUDGET = {"quick": 720, "thorough": 110000}
 TECHNIQUE = "property-based testing: generated user recipes re-evaluated on the generator's data (bit-exact), built-in recipes against a per-cell Cantera evaluation, name->component matching, true extrema"
 RULE = ("Hypothesis-generated 3D plotfiles (1-3 levels, any binary layout) x recipe x kept-field list (None, names in "
         "any order, unknown names) x {serial, schedule-owning pool with a drawn task order}. Recipes: (a) generated "
